@@ -64,7 +64,25 @@ func firstDiff(a, b []string) string {
 			y = b[i]
 		}
 		if x != y {
-			return fmt.Sprintf("index %d: expected %s | got %s", i, vh.Sprintf("%.700s", x), vh.Sprintf("%.700s", y))
+			k := 0
+			for k < len(x) && k < len(y) && x[k] == y[k] {
+				k++
+			}
+			lo := k - 300
+			if lo < 0 {
+				lo = 0
+			}
+			cut := func(s string) string {
+				hi := k + 300
+				if hi > len(s) {
+					hi = len(s)
+				}
+				if lo > len(s) {
+					return ""
+				}
+				return s[lo:hi]
+			}
+			return fmt.Sprintf("index %d differs at char %d: expected ...%s... | got ...%s...", i, k, cut(x), cut(y))
 		}
 	}
 	return ""
@@ -465,6 +483,12 @@ func runC04(c *Ctx) {
 	}
 }
 
+func init() {
+	r3, r4 := runners["C03"], runners["C04"]
+	runners["C03"] = func(c *Ctx) { r3(c); e2eRun(c, "C03") }
+	runners["C04"] = func(c *Ctx) { r4(c); e2eRun(c, "C04") }
+}
+
 func knownFile(h *history, f string) bool {
 	for _, x := range h.files {
 		if x == f {
@@ -552,5 +576,5 @@ func runC01(c *Ctx) {
 		}
 		c.R.Count(strings.Replace(cl, "start0", "startK", 1))
 	}
-	runE2E(c, "C01")
+	e2eRun(c, "C01")
 }
